@@ -298,6 +298,19 @@ def rule_r5(ctx, rid="C15.R5"):
             ctx.r.violation(rid, key_of(f, None, "keyword::" + k), "middleware parameter %s receives %s, expected %s" % (k, got.get(k), v), f.loc(n.ast))
     # the wrapped application is the one served
     st = [m for m in g.nodes if m.kind == "stmt" and isinstance(m.ast, ast.Assign) and any(dotted(t) == "self.application" for t in m.ast.targets)]
+    # every definition of that local reaching the store is the parameter itself or the factory call: nothing cached / shared
+    # between servers (a wrapper built for another server carries that server's trust settings)
+    other_defs = []
+    if st and isinstance(st[0].ast.value, ast.Name):
+        from .common import def_nodes
+        for d in def_nodes(g, st[0].ast.value.id):
+            if d is n:
+                continue
+            if d.id in g.reach(d) or True:
+                if st[0].id in g.reach(d, avoid=[x for x in def_nodes(g, st[0].ast.value.id) if x is not d], follow_exc=False):
+                    other_defs.append(d)
+    if other_defs:
+        ctx.r.violation(rid, key_of(f, None, "wrap-indirect"), "the application stored in self.application can come from %s, not from the parameter or this server's own proxy_headers_middleware(...) call" % norm(other_defs[0].ast)[:70], f.loc(other_defs[0].ast))
     if st and isinstance(n.ast, ast.Assign) and norm(st[0].ast.value) == norm(n.ast.targets[0]) and n.id not in g.reach(st[0]):
         ctx.r.ok(rid, "the wrapped application is what the server serves", f.loc(st[0].ast))
     else:
@@ -320,7 +333,15 @@ def rule_r6(ctx):
     ctx.r.violations[before:] = [v for v in ctx.r.violations[before:] if "asbool" in v["key"]]
 
 
-RULES = [rule_r1, rule_r2, rule_r3, rule_r4, rule_r5, rule_r6]
+def rule_r7(ctx):
+    """Shared with C07.R8: the peer address the trust test reads (REMOTE_ADDR) is the socket's peer address itself."""
+    from . import c07
+    before = len(ctx.r.violations)
+    c07.rule_r8(ctx, rid="C15.R7")
+    ctx.r.violations[before:] = [v for v in ctx.r.violations[before:] if "REMOTE_" in v["key"] or "required-keys" in v["key"]]
+
+
+RULES = [rule_r1, rule_r2, rule_r3, rule_r4, rule_r5, rule_r6, rule_r7]
 
 from ..selftest import M, T, V  # noqa: E402
 
